@@ -2,7 +2,7 @@
 
 Everything here works on resolved entities (def paths, ADT/variant/field names, resolved callees,
 CFG edges) and never on source text."""
-import json, os, collections, re, sys
+import json, os, os, collections, re, sys
 
 sys.setrecursionlimit(20000)
 
@@ -810,6 +810,11 @@ def canonicalise_helper_fields(d):
 class Facts:
     def __init__(self, path):
         d = json.load(open(path))
+        import vocabulary
+        try:
+            self.renamed_vocabulary = vocabulary.align(d) if os.environ.get("ZV_NO_VOCAB") != "1" else {}
+        except Exception as e:   # never let the convenience layer break the analysis: without it the rules fail closed on renamed items
+            self.renamed_vocabulary = {"error": f"{type(e).__name__}: {e}"}
         self.renamed_fields = canonicalise_helper_fields(d)
         self.meta = {k: d[k] for k in ("crate", "nonce", "rustc", "test_harness", "debug_assertions", "missing_bodies") if k in d}
         self.adt_list = d["adts"]  # several derive-generated ADTs can share one path (serde's `__Field` per enum variant)
